@@ -32,8 +32,11 @@ MANIFEST = dict(
          "equals the original when control leaves a voice iteration and every mix kernel sees exactly the patched original. "
          "C15_skeleton_shape: the control flow of the real function(s) calling patch/restore, regenerated from the clang AST, passes an "
          "abstract interpretation (never leaves a voice iteration or the function patched, never patches/restores twice). "
-         "C15_invloop_in_loop: update_invloop stores only inside [lps,lpe) (sustain loop if that is all the sample has). C15_writers: every "
-         "store into pattern/track/event/instrument/envelope/sample storage found by the translator in the player-side sources belongs to "
+         "C15_invloop_in_loop: update_invloop stores only inside [lps,lpe) (sustain loop if that is all the sample has); "
+         "C15_invloop_off_silent: never at speed 0; C15_invloop_target_coherent: the sample it writes (xc->smp) stays the one the "
+         "channel's voice plays or has queued over every history of notes, Protracker swaps, hot swaps, voice losses. C15_writers: every "
+         "store into pattern/track/event/instrument/envelope/sample storage made by ANY function reachable from a post-load API call "
+         "(call graph over all of src/ closed from include/xmp.h: direct calls, address-taken functions, function-pointer tables) belongs to "
          "an allowed class (the patch pair via loop_data.sptr, update_invloop, mod->len=0 in xmp_start_player, smix's own tables, "
          "loader-only extras constructors). Tied to /repo on every run by the regenerated store-site list, control skeleton and constants, "
          "by differential correspondences (real init/reset, adjust_voice_end, softmixer with intercepted kernels, update_invloop observed "
@@ -58,7 +61,7 @@ NS = "Xmp.Wrap."
 REQUIRED = [NS + n for n in ("C15_restore", "C15_patch_frame", "C15_reset_frame", "C15_patch_in_bounds", "C15_guard_aligned",
                              "C15_voice_bounds", "C15_patch_in_bounds_wf",
                              "C15_skeleton_shape", "C15_invloop_in_loop", "C15_invloop_count_inv", "C15_invloop_off_silent_step",
-                             "C15_invloop_off_silent", "C15_skeleton_voice", "C15_skeleton_kernel_view", "C15_skeleton", "C15_writers",
+                             "C15_invloop_off_silent", "C15_invloop_target_coherent", "C15_invloop_unlooped_silent", "C15_skeleton_voice", "C15_skeleton_kernel_view", "C15_skeleton", "C15_writers",
                              "C15_writers_nonvacuous")]
 
 
@@ -235,40 +238,52 @@ def regression_shard(args):
     return rc, out.decode("latin-1"), err
 
 
-def probe_invloop_capable(exe, files):
-    """modules on which the invert-loop effect can act (quirk + 8-bit looped samples), asked from the real loader"""
+def probe_features(exe, files):
+    """asked from the real loader: modules on which the invert-loop effect can act (quirk + 8-bit looped samples),
+    modules with non-default instrument volumes, modules whose instrument and sample numbers differ"""
     chunks = [files[i::16] for i in range(16) if files[i::16]]
     res = vlib.pmap(lambda c: vlib.run_exe(exe, ["probe"] + c, timeout=600), chunks)
-    good = []
+    inv, insvol, mism = [], [], []
     for rc, out, err in res:
         for l in out.decode("latin-1").splitlines():
-            f = l.rsplit(" ", 2)
-            if l.startswith("probe ") and f[1] == "1" and int(f[2]) > 0:
-                good.append(f[0][6:])
-    return sorted(good)
+            f = l.rsplit(" ", 4)
+            if not l.startswith("probe ") or len(f) != 5:
+                continue
+            path = f[0][6:]
+            if f[1] == "1" and int(f[2]) > 0:
+                inv.append(path)
+            if int(f[3]) > 0:
+                insvol.append(path)
+            if int(f[4]) > 0 and int(f[2]) > 0:
+                mism.append(path)
+    return sorted(inv), sorted(insvol), sorted(mism)
 
 
 def check_inv(ck, inv_lines, stats):
-    """model of update_invloop vs the observed channel state and flipped bytes"""
+    """model of update_invloop vs the observed channel state and flipped bytes; channel/voice coherence"""
     if not inv_lines or not ck.lean_ok:
         return
     model = vlib.run_driver("drv_c15", "\n".join(l for _, l in inv_lines) + "\n")
-    table = gen_data_writers.constants(vlib.REPO)["invloopTable"]
+    NF, OFF = 23, 24      # fields: number of flipped bytes in xc->smp, first flipped offset
     # how many channels fired on the same sample in the same call (two flips of one byte cancel)
     fired = {}
     rows = []
     for (case, l), m in zip(inv_lines, model):
         f = l.split(" ")
-        alts = [a.split(":") for a in m.split(" ")[1:]]
+        mw = m.split(" ")
+        alts = [a.split(":") for a in mw[1:4]]
+        coh = mw[4] == "coh=1"
         real = (f[6], f[7])
         match = [a for a in alts if (a[0], a[1]) == real]
-        rows.append((case, l, f, alts, match))
+        rows.append((case, l, f, alts, match, coh))
         if match and match[0][2] != "-":
             fired[(case["case_seed"], f[1], f[8])] = fired.get((case["case_seed"], f[1], f[8]), 0) + 1
-    for case, l, f, alts, match in rows:
+    for case, l, f, alts, match, coh in rows:
         stats["inv_lines"] += 1
+        stats["inv_voice_mapped"] += f[9] == "1"
+        stats["inv_swap_queued"] += f[11] == "1"
         skipped = (f[6], f[7]) == (f[4], f[5])
-        if not match and not skipped and (f[6], f[7], f[18]) == ("0", "0", "0"):
+        if not match and not skipped and (f[6], f[7], f[NF]) == ("0", "0", "0"):
             # the player reset the channel in this tick and update_invloop did not run afterwards; nothing was stored
             stats["inv_reset_without_update"] += 1
             continue
@@ -280,12 +295,18 @@ def check_inv(ck, inv_lines, stats):
             stats["inv_skipped_tick"] += 1
             continue
         idx = match[0][2]
-        ck.count(vlib.hash_str(" ".join(f[3:18])), nontrivial=idx != "-")
+        ck.count(vlib.hash_str(" ".join(f[3:23])), nontrivial=idx != "-")
         if idx != "-":
             stats["inv_stores"] += 1
-            if fired.get((case["case_seed"], f[1], f[8]), 0) == 1 and not (f[18] == "1" and f[19] == idx):
+            if fired.get((case["case_seed"], f[1], f[8]), 0) == 1 and not (f[NF] == "1" and f[OFF] == idx):
                 ck.unproved("correspondence Wrap.invloopStep vs update_invloop (stored index)",
-                            "case %s\n%s\nmodel stores at %s, real flipped %s byte(s), first at %s" % (case["line"], l, idx, f[18], f[19]))
+                            "case %s\n%s\nmodel stores at %s, real flipped %s byte(s), first at %s" % (case["line"], l, idx, f[NF], f[OFF]))
+            if not coh:
+                # the channel wrote into a sample its voice neither plays nor has queued (C15_invloop_target_coherent's
+                # invariant does not hold on the real state); the oracle reports the flipped byte as a violation
+                stats["inv_incoherent_stores"] += 1
+                ck.unproved("correspondence Wrap.ChanVoice.coherent vs channel/voice state at an invert-loop store",
+                            "case %s\n%s" % (case["line"], l))
         ck.cov["traces_validated_against_impl"] += 1
 
 
@@ -309,7 +330,7 @@ def do_digest(ck, exe, mods, nshards, ncases, nops, stats):
                 stats["digest_cases"] += 1
                 stats["digest_cases_with_invloop_fx"] += "invloopfx=1" in l
                 stats["digest_interp_" + re.search(r"interp=(\d)", l).group(1)] += 1
-            elif l.startswith("inv ") and cur and len(l.split(" ")) == 20:
+            elif l.startswith("inv ") and cur and len(l.split(" ")) == 25:
                 inv_lines.append((cur, l))
             elif l.startswith("o_fail ") and cur:
                 f = l.split(" ", 3)
@@ -356,15 +377,17 @@ def run(ck):
     # 4. direct oracle
     dexe = vlib.build_harness("c15_digest", ["c15_digest.c"])
     dmods = corpus(ck, 300 if quick else 400, want_mod=30 if quick else 60)
-    inv_mods = probe_invloop_capable(dexe, [f for f in vlib.corpus_files() if 0 < os.path.getsize(f) < 300000])
+    inv_mods, insvol_mods, mism_mods = probe_features(dexe, [f for f in vlib.corpus_files() if 0 < os.path.getsize(f) < 300000])
     ck.note("invloop_capable_modules", len(inv_mods))
-    if inv_mods:
-        # every third case plays a module the invert-loop effect can act on
-        ck.rng.shuffle(inv_mods)
-        k = 0
-        for j in range(0, len(dmods), 3):
-            dmods[j] = inv_mods[k % len(inv_mods)]
-            k += 1
+    ck.note("modules_with_instrument_volumes", len(insvol_mods))
+    ck.note("modules_with_instrument_ne_sample_numbers", len(mism_mods))
+    # feature-guided selection: every third case plays a module the invert-loop effect can act on, every third one
+    # with instrument volumes / multi-sample instruments; the rest is drawn from the whole corpus
+    for lst, off in ((inv_mods, 0), (insvol_mods + mism_mods, 1)):
+        if lst:
+            ck.rng.shuffle(lst)
+            for k, j in enumerate(range(off, len(dmods), 3)):
+                dmods[j] = lst[k % len(lst)]
     do_digest(ck, dexe, dmods, 16, 24 if quick else 200, 150 if quick else 500, stats)
     for k, v in sorted(stats.items()):
         ck.note(k, v)
